@@ -74,6 +74,13 @@ impl<'a> IrEmitter<'a> {
 
             let mut out_fields: Vec<TokenStream> = Vec::new();
             for fname in field_names {
+                // Tuple-like types (newtypes) have positional fields named "0", "1", ...: they cannot be filled by a
+                // named / empty constructor call, and `format_ident!` panics on a numeric name.
+                if fname.starts_with(|c: char| c.is_ascii_digit()) {
+                    return Err(EmitError::Unsupported(format!(
+                        "constructor call for '{name}' is missing its positional argument"
+                    )));
+                }
                 let fn_ident = format_ident!("{}", fname);
                 if let Some(fval) = provided.get(fname.as_str()) {
                     let emitted = self.emit_expr(fval)?;
